@@ -741,6 +741,12 @@ class Gen:
                 kinds = "".join(kmap[x] for x in ps)
             else:
                 ps = r.sample(ppool, np_)
+                pairs = [pr for pr in (("a", "ax"), ("a", "xa"), ("b", "bx"), ("b", "yb"), ("p", "p0")) if pr[0] in ppool and pr[1] in ppool]
+                if np_ >= 2 and pairs and r.random() < 0.45:
+                    # two parameters of one macro, one name a SUBSTRING of the other, in either order
+                    pr = list(r.choice(pairs))
+                    r.shuffle(pr)
+                    ps = pr + [x for x in ps if x not in pr][: np_ - 2]
                 kinds = "".join(r.choice("qqqqqqri") for _ in ps)
             if "q" not in kinds and "r" not in kinds:
                 kinds = "q" + kinds[1:]
